@@ -177,7 +177,7 @@ impl GenCfg {
 
 pub fn gen_version(d: &mut Dna) -> (u8, u8, u8) {
 	let sel = d.u8();
-	let (ma, mi) = if sel < 154 {
+	let (ma, mi) = if sel < 100 {
 		// layout-introducing versions and their immediate predecessors
 		let k = d.below(spec::LAYOUT_VERSIONS.len() * 2);
 		let (ma, mi) = spec::LAYOUT_VERSIONS[k / 2];
@@ -190,6 +190,9 @@ pub fn gen_version(d: &mut Dna) -> (u8, u8, u8) {
 		} else {
 			(ma, mi)
 		}
+	} else if sel < 180 {
+		// the richest regime (items, bookends, gecko): 3.0..=3.16
+		(3, d.below(17) as u8)
 	} else {
 		let all = spec::all_minors();
 		all[d.below(all.len())]
